@@ -127,6 +127,12 @@ def check(run, F, tier):
                             dom = conn.enum_domain(F, "mqtt::result_code::PubrecReasonCode")
                             if dom.get(c2[1], "") in ("Success",) and k2[0] == "discr":
                                 succ = True
+                for _, e in conn.calls(p, "::is_success"):
+                    if conn.truth(p, e) is True:
+                        succ = True
+                for _, e in conn.calls(p, "::is_failure"):
+                    if conn.truth(p, e) is False:
+                        succ = True
                 if succ:
                     continue
             cnt += 1
